@@ -31,6 +31,16 @@ use std::{
 
 pub const MIN_INDEX_BITS: u8 = 16;
 pub const MIN_REF_COUNT_BITS: u8 = 16;
+
+/// Verification hook: `MIN_REF_COUNT_BITS` unless a test lowered it with
+/// `verif::set_min_ref_count_bits` so that ref-count chunks fill up (and the table grows) early.
+#[cfg(pdb_verif)]
+fn min_ref_count_bits() -> u8 {
+	match crate::verif::min_ref_count_bits_override() {
+		0 => MIN_REF_COUNT_BITS,
+		bits => bits,
+	}
+}
 // Measured in index entries
 const MAX_REINDEX_BATCH: usize = 8192;
 
@@ -617,6 +627,26 @@ impl HashColumn {
 		col: ColId,
 		reindexing: &mut VecDeque<ReindexEntry>,
 	) -> Result<RefCountTable> {
+		// Verification hook: a test may lower the initial size; same steps as below with that size.
+		#[cfg(pdb_verif)]
+		if min_ref_count_bits() != MIN_REF_COUNT_BITS {
+			let min_bits = min_ref_count_bits();
+			let mut top = None;
+			for bits in (min_bits..65).rev() {
+				let id = RefCountTableId::new(col, bits);
+				if let Some(table) = RefCountTable::open_existing(path, id)? {
+					if top.is_none() {
+						top = Some(table);
+					} else {
+						reindexing.push_front(ReindexEntry::RefCount(table));
+					}
+				}
+			}
+			return Ok(match top {
+				Some(table) => table,
+				None => RefCountTable::create_new(path, RefCountTableId::new(col, min_bits)),
+			})
+		}
 		let mut top = None;
 		for bits in (MIN_REF_COUNT_BITS..65).rev() {
 			let id = RefCountTableId::new(col, bits);
